@@ -15,7 +15,11 @@ internal/ingest/arrow_writer.go, with EVERY Go operation of that code that can p
 `Except Site` step:
 
     Site.mergeTypeAssert   copy(merged[name].([]T)[rowOffset:], v)      single-value type assertion
+                           (repaired in /repo d29da22: checked assertion, mergeBatches returns an error;
+                           fact `mergeUncheckedAsserts = 0` — the flush fails and the rows are LOST)
     Site.schemaName0       getSchema / inferSchema  `name[0]`            index on an empty string
+                           (repaired in /repo 1d10738: guarded, and a column named "" is rejected by
+                           both write paths; facts `schemaGuardsEmpty`, `writeRejectsEmptyName`)
     Site.permIndex         applyPermutation  `col[idx]`                  index, column shorter than `time`
     Site.permValidIndex    sortTypedColumnBatchByKeys  `valid[idx]`      index, validity shorter than `time`
     Site.appendValuesLen   builder.AppendValues(v, valid)                arrow panics when len(valid) ∉ {0, len(v)}
@@ -421,29 +425,27 @@ inductive RecOut
   | reqPanic (s : Site)
 deriving DecidableEq, Repr
 
-def writeRec (cfg : Cfg) (s : St) (db : Name) : Rec → Except Site (RecOut × St)
-  | .nested => .ok (.reject, s)
-  | .typed meas b =>
+/-- the typed batch of one record goes to the buffer layer. Both write paths first refuse a batch
+with a column named "" (fact `writeRejectsEmptyName`): the handler answers 500, nothing is buffered. -/
+def bufferBatch (cfg : Cfg) (s : St) (db meas : Name) (b : Batch) : Except Site (RecOut × St) :=
+  if writeRejectsEmptyName && b.cols.any (fun c => c.name.isEmpty) then .ok (.reject, s)
+  else
     match writeBatch cfg s db meas b with
     | .error site => .error site
     | .ok (.ok, s') => .ok (.ok b.nrec, s')
     | .ok (.reqPanic site, s') => .ok (.reqPanic site, s')
+
+def writeRec (cfg : Cfg) (s : St) (db : Name) : Rec → Except Site (RecOut × St)
+  | .nested => .ok (.reject, s)
+  | .typed meas b => bufferBatch cfg s db meas b
   | .generic meas cols times nrec =>
     match convert cols times nrec with
     | none => .ok (.reject, s)
-    | some b =>
-      match writeBatch cfg s db meas b with
-      | .error site => .error site
-      | .ok (.ok, s') => .ok (.ok b.nrec, s')
-      | .ok (.reqPanic site, s') => .ok (.reqPanic site, s')
+    | some b => bufferBatch cfg s db meas b
   | .rows meas rows times nrec =>
     match convert (rowsToColumnar rows) times nrec with
     | none => .ok (.reject, s)
-    | some b =>
-      match writeBatch cfg s db meas b with
-      | .error site => .error site
-      | .ok (.ok, s') => .ok (.ok b.nrec, s')
-      | .ok (.reqPanic site, s') => .ok (.reqPanic site, s')
+    | some b => bufferBatch cfg s db meas b
 
 /-- the record loop of `ArrowBuffer.Write` / the per-measurement loops of the LP handlers: stops at
 the first failing record; what was buffered before STAYS buffered (fact `writeAtomic = false`). -/
